@@ -219,13 +219,18 @@ func TestVerifWriteReplay(t *testing.T) {
 						if attempt == 0 {
 							ns.Add(1)
 						}
-						got := w.apply(step, 1500*time.Millisecond)
+						wait := 1500 * time.Millisecond
+						if mis != nil {
+							// already diverged: the remaining calls are still issued (to see whether the divergence
+							// has a property-level consequence) but there is no expected state to wait for
+							wait = 20 * time.Millisecond
+						}
+						got := w.apply(step, wait)
 						if b, _ := step["st"].(map[string]any)["busy"].([]any); len(b) > 0 {
 							sawBlocked = true
 						}
-						if vCanon(vNorm(got)) != vCanon(step) {
+						if mis == nil && vCanon(vNorm(got)) != vCanon(step) {
 							mis = map[string]any{"kind": "mismatch", "step": i, "want": step, "got": vNorm(got), "ops": vwOps(beh[:i+1])}
-							break
 						}
 					}
 					// property-level oracle on the real stream: the high-water mark of the buffered amount
